@@ -6,10 +6,10 @@ import time
 
 from . import common as c
 
-SUPPORT = ["Mem/Mem.v", "Mem/Scan.v", "Mem/Routines.v", "Mem/Blocked.v"]
+SUPPORT = ["Mem/Mem.v", "Mem/Scan.v", "Mem/Routines.v", "Mem/Blocked.v", "Mem/PadTie.v"]
 
 CLAIM = {
-    "gens": ["Tables"],
+    "gens": ["Tables", "OptPad"],
     "category": "proof",
     "text": "Theorems (Coq) over a read monad with an access log (memory = input ++ tail, page model): the generic theorem "
             "'a run that only touches indices < len(input) returns the same result and touches the same indices for every tail', and per routine of "
@@ -172,6 +172,20 @@ def run(ctx):
         if env.get("SONIC_USE_OPTDEC"):
             cmd += ["-entry", "sonic.Unmarshal"]      # the alternative decoder only changes the decoding entry points
         procs.append((env, outp, prog, log, subprocess.Popen(cmd, env=e, stdout=log, stderr=subprocess.STDOUT)))
+    # value-by-value decoding of multi-value inputs with a truncated last value, after earlier longer parses (pooled parser buffers),
+    # default back end and the alternative decoder (which works on a padded private copy of input[pos:])
+    for j, env in enumerate(({}, {"SONIC_USE_OPTDEC": "1"}, {"SONIC_USE_OPTDEC": "1", "SONIC_USE_FASTMAP": "1"})):
+        e = dict(c.GOENV)
+        e.update(env)
+        e["GOMAXPROCS"] = "1"
+        outp = os.path.join(work, "resume%d.json" % j)
+        prog = os.path.join(work, "resume%d.progress" % j)
+        for fn in (outp, prog):
+            if os.path.exists(fn):
+                os.remove(fn)
+        log = open(os.path.join(work, "resume%d.log" % j), "w")
+        cmd = [hb, "-mode", "resume", "-n", str(400 if ctx.tier == "quick" else 6000), "-seed", str(ctx.seed + 17 + j), "-out", outp, "-progress", prog]
+        procs.append((env, outp, prog, log, subprocess.Popen(cmd, env=e, stdout=log, stderr=subprocess.STDOUT)))
     limit = 400 if ctx.tier == "quick" else 3000
     tot = {"evaluations": 0, "placements": 0, "nontrivial": 0, "faults": 0, "taildep": 0}
     per_entry, per_gen, lengths, fail_counts = {}, {}, {}, {}
@@ -198,7 +212,7 @@ def run(ctx):
             continue
         rep = json.load(open(outp))
         tot["evaluations"] += rep["evaluations"]
-        tot["placements"] += rep["placements"]
+        tot["placements"] += rep["placements"] or rep["evaluations"]
         tot["nontrivial"] += rep["distinct_nontrivial"]
         tot["faults"] += rep["faults"]
         tot["taildep"] += rep["tail_dependent"]
